@@ -375,7 +375,14 @@ struct StrTarget
             }
             case 12: FMT_CASE("%s", ""); break;
             default:
-                longs.assign((size_t)(3 * cap + v % 5) % 90, 'L');
+                if (v % 6 == 0 && maxlen >= 200)
+                { // a long formatted text (up to 6 KiB, beyond any scratch buffer an implementation might format into first), every
+                  // position with its own letter so that a truncated or repeated stretch shows
+                    size_t const n = 200 + (size_t)((v / 6 * 37) % 6000);
+                    longs.resize(n); for (size_t i = 0; i < n; ++i) longs[i] = (char)('a' + (i * 7 + i / 26 + v) % 26);
+                    c.st.add(n >= 1024 ? "probe.catf_text_of_1024_bytes_or_more" : "probe.catf_long_text");
+                }
+                else longs.assign((size_t)(3 * cap + v % 5) % 90, 'L');
                 FMT_CASE("[%s]", longs.c_str());
                 break;
             }
